@@ -747,7 +747,13 @@ def check_liveness(scn, res):
     kills = [e for e in res.log if e['ev'] == 'kill']
 
     if not kills:
-        return viols
+        # a consumer that falls silent (long process() call) for longer than the connection timeout counts as the fault
+        stalls = [e for e in res.log if e['ev'] == 'process' and 'stall' in e and e['stall'][1] >= (scn.get('conn_timeout') or 5000)]
+
+        if not stalls:
+            return viols
+
+        kills = [{'f': stalls[0]['f'], 't': stalls[0]['stall'][0], 'restart': None, 'silent': True}]
 
     k     = kills[0]
     t_rec = k['t'] + (k['restart'] or 0)
